@@ -15,15 +15,12 @@ import logging
 from . import common, family as F
 from .common import cN, cbool, clist, copt, cstr
 
-THEOREMS_PLANNED = [
-    "create_mirrors_type", "member_object_mirrors_type", "build_fuel_sufficient",
+THEOREMS = [
+    "create_meets_spec", "create_mirrors_type", "member_object_mirrors_type", "build_fuel_sufficient",
     "split_wellformed", "qualify_spellings", "create_spelling_independent",
     "create_known_name_mirrors", "create_unknown_raises", "create_never_partial",
-    "content_model_flattening_agrees",
-    "strict_reading_refuted", "malformed_path_accepted",
+    "content_model_flattening_agrees", "strict_reading_refuted", "malformed_path_accepted",
 ]
-
-THEOREMS = []
 
 PRE = "From SV Require Import Lib.Base Fam.Schema C03.Model C03.Spec."
 
@@ -402,7 +399,7 @@ def gen_spellings(rng, S, R, thorough):
         for a in S.all_attrs(t):
             sp = rng.choice(root_forms(rng, S, R, ns, name)).with_members([(None, True, a.name)])
             out.append((sp.text(), sp, "attribute-path"))
-        for _ in range(6 if thorough else 2):
+        for _ in range(8 if thorough else 4):
             w = member_walks(rng, S, t, rng.choice([2, 3, 4]))
             if len(w) >= 2:
                 sp = rng.choice(root_forms(rng, S, R, ns, name)).with_members(w)
@@ -634,13 +631,13 @@ def run(ck):
             if reaches_wildcard(S, t):
                 # a wildcard before a named member captures the look-up of an untyped dict
                 # (schemas violating Unique Particle Attribution; guarded in C01 as well)
-                ck.count("object-vs-dict-skipped-wildcard")
+                ck.count("object-vs-dict-skipped-wildcard-or-shadowed-type")
                 continue
-            reps = 1 if not thorough else 3
+            reps = 3 if not thorough else 6
             for rep in range(reps):
                 try:
                     okw, dkw = {}, {}
-                    in_choice = choice_members(t)
+                    in_choice = set().union(*[choice_members(c) for c in S.chain(t)])
                     for p in params:
                         if p.name in okw or p.name in in_choice or rng.random() < 0.2:
                             continue
@@ -652,8 +649,26 @@ def run(ck):
                             dkw[p.name] = to_dict(o)
                     if not okw:
                         continue
-                    e1 = getattr(client.service, "op%d" % k)(**okw).envelope
-                    e2 = getattr(client.service, "op%d" % k)(**dkw).envelope
+                    errs = []
+                    envs = []
+                    for kw in (okw, dkw):
+                        try:
+                            envs.append(getattr(client.service, "op%d" % k)(**kw).envelope)
+                            errs.append(None)
+                        except Exception as e:  # noqa
+                            envs.append(None)
+                            errs.append("%s(%s)" % (type(e).__name__, e))
+                    if errs[0] is not None or errs[1] is not None:
+                        if errs[0] != errs[1]:
+                            ck.failing_input("C03:object-vs-dict-request",
+                                             "op%d: the filled factory object gives %s, the equivalent dict gives %s"
+                                             % (k, errs[0] or "a request", errs[1] or "a request"),
+                                             {"wsdl": wsdl.decode("utf-8"), "operation": "op%d" % k,
+                                              "object_args": repr(okw)[:3000], "dict_args": repr(dkw)[:3000]})
+                        else:
+                            ck.count("object-vs-dict-both-raise")
+                        continue
+                    e1, e2 = envs
                     b1 = c01.envelope_body(e1)[1].elements()
                     b2 = c01.envelope_body(e2)[1].elements()
                     I2 = F.new_interner()
@@ -687,13 +702,16 @@ def run(ck):
     for d in wdefs:
         wdefs_by_index[int(d.split()[1][1:])] = d
 
-    n_claimed = 0
+    n_claimed = n_guard = n_inst_bad = 0
     cand_seen = {}
     for bi, chunk in enumerate(batches(create_cases)):
-        preds = ["create_agrees", "create_spec_ok", "create_strict_ok", "create_claimed"]
+        preds = ["create_agrees", "create_spec_ok", "create_strict_ok", "create_claimed",
+                 "fun c => negb (theorem_guard c)", "theorem_instance"]
         res = ck.run_cases("create%d" % bi, pre_for(chunk), "ccase", [c[1] for c in chunk], preds, shard=250)
         spec_bad = set(res["create_spec_ok"])
         n_claimed += len(chunk) - len(res["create_claimed"])
+        n_guard += len(res["fun c => negb (theorem_guard c)"])
+        n_inst_bad += len(res["theorem_instance"])
         for i in sorted(spec_bad):
             m = chunk[i][2]
             impl = m["impl"]
@@ -731,6 +749,11 @@ def run(ck):
             ck.failing_input(key, CANDIDATES[key], {"wsdl": c["wsdl"].decode("utf-8"), "path": c["path"],
                                                    "impl": c["impl"]})
     ck.extra["create_cases_inside_the_claim"] = n_claimed
+    ck.extra["create_cases_inside_theorem_guard"] = n_guard
+    ck.extra["theorem_instance_failures"] = n_inst_bad
+    if n_inst_bad:
+        unproved.append({"correspondence": "theorem_instance", "count": n_inst_bad,
+                         "first": "create_meets_spec does not compute to true on a case inside its guard"})
 
     for bi, chunk in enumerate(batches(qual_cases)):
         res = ck.run_cases("qualify%d" % bi, pre_for(chunk), "qcase", [c[1] for c in chunk], ["qualify_agrees"],
@@ -799,6 +822,11 @@ def run(ck):
                     {"disagreements": unproved})
 
 
+def shadowed(S, t):
+    """factory.create cannot name type t: a global element of another type has its name"""
+    return any((g.ns, g.name) == (t.ns, t.name) and g.tref != ("n", t.ns, t.name) for g in S.gelems)
+
+
 def reaches_wildcard(S, t):
     seen, todo = set(), [t]
     while todo:
@@ -806,6 +834,8 @@ def reaches_wildcard(S, t):
         if id(x) in seen:
             continue
         seen.add(id(x))
+        if shadowed(S, x):
+            return True
         for p, _ in S.flat(x):
             if isinstance(p, F.Any):
                 return True
